@@ -192,10 +192,11 @@ def vhdx(p):
     b[rt:rt + 16] = struct.pack('<IIII', regi, 0, cnt & 0xffffffff, 0)
     for i, e in enumerate(entries[:2047]):
         b[rt + 16 + i * 32: rt + 16 + (i + 1) * 32] = e
-    mpad = b'\x22' * 16 + struct.pack('<III', 0x20000, 8, 0) + b'\0\0\0\0'
+    mpad = b'\x22' * 16 + struct.pack('<III', 0x20000, 8, p.get('pad_flags', 0) & 0xffffffff) + b'\0\0\0\0'
     ments = [mpad] * n_pad_meta
     if with_vds:
-        ments.append(_guid_le(VHDX_VDS_GUID) + struct.pack('<III', item_off, item_len & 0xffffffff, 0) + b'\0\0\0\0')
+        ments.append(_guid_le(VHDX_VDS_GUID) + struct.pack('<III', item_off, item_len & 0xffffffff, p.get('vds_flags', 0) & 0xffffffff) +
+                     bytes([p.get('entry_reserved', 0)]) * 4)
     ments += [mpad] * n_after_meta
     mcnt = len(ments) if meta_count is None else meta_count
     b[meta_off:meta_off + 32] = struct.pack('<8sHH', meta_sig, 0, mcnt & 0xffff).ljust(32, b'\0')
@@ -448,6 +449,10 @@ def mbr(p):
     if p.get('fat'):
         b[0x10] = 2
         b[0x15] = 0xF8
+    if p.get('bpb') is not None:
+        # the two boot-code bytes the FAT test looks at, set to values next to the FAT ones (2 FATs, media 0xF8): only
+        # exactly that pair means "this is a FAT volume boot record, not a partition table"
+        b[0x10], b[0x15] = p['bpb']
     data = bytes(b[:total])
     ok_sig = sig == 0xAA55 and total >= 512 and not (b[0x10] == 2 and b[0x15] == 0xF8)
     ptes4 = list(ptes[:4]) + [(0,) * 10] * (4 - len(ptes[:4]))
